@@ -122,10 +122,18 @@ def paths(t):
 
 
 def snap(t):
+    """What a caller can observe of an input tree: structure, data, ids, meta - and what its lookups answer: the counters
+    and, for labels of either tree, the hits of the data index (read through the public queries only)."""
     def rec(n):
         return [(id(c), id(c.data), c.data, c.data_id, dict(c.meta) if c.meta else None, rec(c)) for c in n.children]
 
-    return rec(t._root)
+    probes = []
+    for x in MODE.get("probe_labels", ()):
+        try:
+            probes.append((len(t.find_all(x)), x in t))
+        except Exception as e:  # noqa: BLE001
+            probes.append(type(e).__name__)
+    return rec(t._root), t.count, t.count_unique, len(t), probes
 
 
 def make_pair(case):
@@ -155,6 +163,7 @@ def check(t0, t1, ordered, reduce, res):
 
     P0, P1 = paths(t0), paths(t1)
     errs = []
+    MODE["probe_labels"] = list(dict.fromkeys([n.data for n in t0] + [n.data for n in t1]))[:12]
     s0, s1 = snap(t0), snap(t1)
     t2 = t0.diff(t1, ordered=ordered, reduce=reduce)
     res.count("diff_calls")
